@@ -26,7 +26,8 @@ type c03Line struct {
 }
 
 type c03Case struct {
-	Mode    string // A: command history, B: cut enumeration, S: stall
+	Mode    string // A: command history, B: cut enumeration, S: stall, P: the same valid dialogue sent ahead of the replies
+	Pipe    int    // mode P: 0 the whole dialogue in one write; 1 one write per transaction; 2 commands up to DATA in one write, data and the next commands in the next
 	Store   StoreCfg
 	Net     simnet.Profile
 	Lines   []c03Line // mode A
@@ -76,13 +77,15 @@ func genC03(w *simrt.Choices, tier string, avoid map[string]bool) Case {
 	}
 	k.Timeout = []time.Duration{30 * time.Second, 60 * time.Second, 300 * time.Second}[w.Choose(3)]
 	k.RST = w.Choose(2) == 1
-	switch w.Choose(5) {
+	switch w.Choose(6) {
 	case 0, 1, 2:
 		k.Mode = "A"
 	case 3:
 		k.Mode = "B"
-	default:
+	case 4:
 		k.Mode = "S"
+	default:
+		k.Mode = "P"
 	}
 	tok := 0
 	if k.Mode == "A" {
@@ -212,6 +215,13 @@ func genC03(w *simrt.Choices, tier string, avoid map[string]bool) Case {
 			t.Rcpts = append(t.Rcpts, fmt.Sprintf("%s%d@%s", smtpLocals[w.Choose(6)], i*10+j, smtpDomains[w.Choose(len(smtpDomains))]))
 		}
 		k.Txns = append(k.Txns, t)
+	}
+	if k.Mode == "P" {
+		k.Pipe = w.Choose(3)
+		// the client writes ahead without reading: with buffers smaller than the
+		// dialogue both sides would block on their writes (no real TCP stack has
+		// 64-byte buffers in both directions)
+		k.Net.BufCap = 65536
 	}
 	if k.Mode == "B" {
 		if tier == "thorough" && w.Choose(12) == 0 {
@@ -393,6 +403,8 @@ func runC03(c *Ctx, cs Case) {
 		c03Cuts(c, k, exp, env)
 	case "S":
 		c03Stall(c, k, exp)
+	case "P":
+		c03Pipelined(c, k, exp)
 	}
 	// every session must have ended by now or end within the idle timeout
 	t0 := time.Now()
@@ -694,6 +706,100 @@ func c03Cuts(c *Ctx, k *c03Case, exp *c03Expect, env *smtpEnv) {
 			return
 		}
 	}
+}
+
+// c03Pipelined sends a valid dialogue ahead of the replies (a client that does
+// not wait, or whose lines the network delivers together): the server sees
+// several command lines - and message data - in one read.  Every line must
+// still get exactly one reply, in order, the dialogue must be accepted as when
+// it is played step by step, and what was acknowledged must be stored.
+func c03Pipelined(c *Ctx, k *c03Case, exp *c03Expect) {
+	t := c.Go("pipeliner", func() {
+		cl, err := dialSMTP(c, "pipeliner", k.Timeout+90*time.Second)
+		if err != nil {
+			c.Failf("dial-refused", "%v", err)
+			return
+		}
+		defer cl.close()
+		if g := cl.readReply(); g.Code != 220 {
+			c.Failf("bad-greeting", "expected 220, got %s", g)
+			return
+		}
+		type expect struct {
+			what string
+			code int
+			tok  string
+			rc   []string
+		}
+		var out bytes.Buffer
+		var want []expect
+		flush := func() bool {
+			if out.Len() > 0 {
+				cl.logf("-> %d bytes in one write (%d replies outstanding)", out.Len(), len(want))
+				if err := cl.write(out.Bytes()); err != nil {
+					c.Failf("pipelined/write-failed", "%v", err)
+					return false
+				}
+				out.Reset()
+			}
+			for _, e := range want {
+				r := cl.readReply()
+				if r.Err != nil {
+					c.Failf("pipelined/no-reply", "no reply to %s sent ahead (%v); %d replies were still outstanding", e.what, r.Err, len(want))
+					return false
+				}
+				if !r.WellFormed {
+					c.Failf("malformed-reply", "reply to %s: %q is not well-formed: %s", e.what, clipStr(r.Raw, 80), r.Why)
+					return false
+				}
+				if r.Code != e.code {
+					c.Failf("pipelined/valid-dialogue-refused", "%s sent ahead of the replies was answered %s, expected %d as when it is sent step by step", e.what, r, e.code)
+					return false
+				}
+				if e.tok != "" {
+					exp.must[e.tok] = e.rc
+				}
+			}
+			want = want[:0]
+			return true
+		}
+		line := func(s string, code int) {
+			out.WriteString(s + "\r\n")
+			want = append(want, expect{what: fmt.Sprintf("%q", s), code: code})
+		}
+		for _, t := range k.Txns {
+			tok := t.Token + "-p"
+			if t.Greet != "" {
+				line(t.Greet+" client.sim", 250)
+			}
+			line("MAIL FROM:<"+t.From+">", 250)
+			for _, rc := range t.Rcpts {
+				line("RCPT TO:<"+rc+">", 250)
+			}
+			line("DATA", 354)
+			if k.Pipe == 2 && !flush() {
+				return
+			}
+			data := mkMessage(tok, "hdrfrom@sender.test", t.Rcpts, t.Extra, 3)
+			exp.data[tok] = data
+			// in flight until acknowledged
+			exp.may[tok] = t.Rcpts
+			out.Write(dotStuff(data))
+			want = append(want, expect{what: "the data of " + tok, code: 250, tok: tok, rc: t.Rcpts})
+			if k.Pipe == 1 && !flush() {
+				return
+			}
+		}
+		line("QUIT", 221)
+		if !flush() {
+			return
+		}
+		for tok := range exp.must {
+			delete(exp.may, tok)
+		}
+		c.Stat("probe.pipelined_dialogues", 1)
+	})
+	c.Main.Join(t)
 }
 
 func c03Stall(c *Ctx, k *c03Case, exp *c03Expect) {
